@@ -138,6 +138,7 @@ func init() {
 		Title: "Replies go to the asker, echo its transaction ID, and use the right KRPC form",
 		Decided: "C08.1 every reply/error call in the handler passes the query's source and the query's t; C08.2 the builders put t, y, own ID, requester ip into the message and write to the same address; no other code builds r/e messages; " +
 			"C08.3 exactly one reply-or-error per query on every path (zero only behind passive, hook veto, invalid token), one socket write per reply/error; C08.4 default branch answers 204, missing arguments answer 203 in every method that uses arguments; " +
+			"C08.6 the Addr built from the received source keeps that very net.Addr (or a copy in which every field of the original is carried over) and Raw() returns it, so the write goes to the complete source address (IP, port and zone); " +
 			"C08.5 nothing that can reach the socket write is reachable from the non-query branch of the packet processor.",
 		NotDecided: "byte-for-byte content of the encoded datagrams (bencode library), 'when send budget allows' (C20).",
 		Rules: []*Rule{
@@ -146,6 +147,7 @@ func init() {
 			{ID: "C08.3", Doc: "exactly one datagram per query", Floor: 8, Run: c08r3},
 			{ID: "C08.4", Doc: "error codes: 204 unknown method, 203 missing arguments", Floor: 5, Run: c08r4},
 			{ID: "C08.5", Doc: "silence on non-queries", Floor: 3, Run: c08r5},
+			{ID: "C08.6", Doc: "the address wrapper hands back the complete address it was built from", Floor: 2, Run: c08r6},
 		},
 	})
 }
@@ -330,7 +332,9 @@ func c08r3(w *World, rr *RuleRun) {
 	for r := range counts {
 		rets = append(rets, r)
 	}
-	sort.Slice(rets, func(i, j int) bool { return rets[i].Pos() < rets[j].Pos() || (rets[i].Pos() == rets[j].Pos() && rets[i].Block().Index < rets[j].Block().Index) })
+	sort.Slice(rets, func(i, j int) bool {
+		return rets[i].Pos() < rets[j].Pos() || (rets[i].Pos() == rets[j].Pos() && rets[i].Block().Index < rets[j].Block().Index)
+	})
 	for _, r := range rets {
 		c := counts[r]
 		st := w.FE.StateBefore(r)
@@ -631,4 +635,135 @@ func c08r5(w *World, rr *RuleRun) {
 			return false, `no Y == "q" fact`
 		})
 	}
+}
+
+// c08r6: NewAddr keeps the address it was given; Raw() returns it. The reply destination is
+// node.Raw() (C19.1) of NewAddr(ReadFrom's address) (C07.6), so this closes the chain
+// "goes to that query's source address" for every component of the address, not just IP and port.
+func c08r6(w *World, rr *RuleRun) {
+	newAddr := w.P.Func("NewAddr")
+	rawF := w.P.Field("", "cachedAddr", "raw")
+	rawM := w.P.Func("(cachedAddr).Raw")
+	var param *ssa.Parameter
+	if len(newAddr.Params) == 1 {
+		param = newAddr.Params[0]
+	} else {
+		rr.Broken("NewAddr does not take exactly one parameter")
+	}
+	n := 0
+	for _, ins := range w.FieldWrites(w.P.LibFuncs, rawF) {
+		st, ok := ins.(*ssa.Store)
+		if !ok {
+			continue
+		}
+		n++
+		if enclosingNamed(st.Parent()) != newAddr {
+			rr.At(w, ins, "cachedAddr.raw is set only by NewAddr", false, "in "+shortFuncName(st.Parent()))
+			continue
+		}
+		ok, why := faithfulCopy(w, st.Val, param, 0)
+		rr.At(w, ins, "cachedAddr.raw is the address given to NewAddr, complete", ok, why)
+	}
+	if n == 0 {
+		rr.Oblige("NewAddr", "cachedAddr.raw is the address given to NewAddr, complete", w.P.Pos(newAddr.Pos()), false, "no store to cachedAddr.raw")
+	}
+	okRet, nRet := true, 0
+	det := ""
+	eachInstr([]*ssa.Function{rawM}, func(_ *ssa.Function, ins ssa.Instruction) {
+		if ret, ok := ins.(*ssa.Return); ok && len(ret.Results) == 1 {
+			nRet++
+			t := w.TS.Of(ret.Results[0])
+			if !(isFieldTerm(t, rawF)) {
+				okRet = false
+				det = t.String()
+			}
+		}
+	})
+	rr.Oblige(shortFuncName(rawM), "Raw() returns the stored address", w.P.Pos(rawM.Pos()), okRet && nRet > 0, det)
+}
+
+// faithfulCopy: v is param itself, or a freshly allocated struct in which every field of the
+// struct type is stored from the same-named field of (a type assertion of) param.
+func faithfulCopy(w *World, v ssa.Value, param *ssa.Parameter, depth int) (bool, string) {
+	if depth > 4 {
+		return false, "too deep"
+	}
+	switch x := v.(type) {
+	case *ssa.Parameter:
+		if x == param {
+			return true, "the parameter itself"
+		}
+	case *ssa.Phi:
+		for _, e := range x.Edges {
+			if ok, why := faithfulCopy(w, e, param, depth+1); !ok {
+				return false, why
+			}
+		}
+		return true, "every incoming value is the parameter or a complete copy"
+	case *ssa.MakeInterface:
+		return faithfulCopy(w, x.X, param, depth+1)
+	case *ssa.ChangeInterface:
+		return faithfulCopy(w, x.X, param, depth+1)
+	case *ssa.ChangeType:
+		return faithfulCopy(w, x.X, param, depth+1)
+	case *ssa.Extract:
+		if ta, ok := x.Tuple.(*ssa.TypeAssert); ok && x.Index == 0 {
+			return faithfulCopy(w, ta.X, param, depth+1)
+		}
+	case *ssa.TypeAssert:
+		return faithfulCopy(w, x.X, param, depth+1)
+	case *ssa.Alloc:
+		st, ok := x.Type().Underlying().(*types.Pointer).Elem().Underlying().(*types.Struct)
+		if !ok {
+			break
+		}
+		have := map[int]bool{}
+		for _, r := range *x.Referrers() {
+			fa, ok := r.(*ssa.FieldAddr)
+			if !ok {
+				continue
+			}
+			for _, r2 := range *fa.Referrers() {
+				s, ok := r2.(*ssa.Store)
+				if !ok || s.Addr != fa {
+					continue
+				}
+				// the value mentions the same field of something derived from param
+				t := w.TS.Of(s.Val)
+				fld := st.Field(fa.Field)
+				good := false
+				t.Walk(func(y *Term) bool {
+					if y.Op == OpField && y.Obj == fld && termMentionsParam(y, param) {
+						good = true
+					}
+					return !good
+				})
+				if good {
+					have[fa.Field] = true
+				}
+			}
+		}
+		var missing []string
+		for i := 0; i < st.NumFields(); i++ {
+			if !have[i] {
+				missing = append(missing, st.Field(i).Name())
+			}
+		}
+		if len(missing) == 0 {
+			return true, "a copy carrying every field"
+		}
+		return false, "a copy of the address that does not carry over " + strings.Join(missing, ", ")
+	}
+	return false, "stores " + trunc(w.TS.Of(v).String(), 120) + ", not the address given"
+}
+
+func termMentionsParam(t *Term, p *ssa.Parameter) bool {
+	found := false
+	t.Walk(func(y *Term) bool {
+		if y.Op == OpParam && y.Name == p.Name() && y.Fn == p.Parent() {
+			found = true
+		}
+		return !found
+	})
+	return found
 }
